@@ -57,7 +57,7 @@ def reduce_targets():
 def acc_targets():
     H = 'specs/C09/acc.h'
     out = []
-    TENS = r'tensor_t<nano::tensor_vector_storage_t, double, \d|^nano::tensor\dd_t$|^nano::vector_t$|^nano::tensor_mem_t<double, \d>$'
+    TENS = r'tensor_t<nano::tensor_(vector|carray|marray)_storage_t, double, \d|^nano::tensor\dd_(c?map_)?t$|^nano::vector_(c?map_)?t$|^nano::tensor_mem_t<double, \d>$'
     for tag, st in (('linear', 'struct nv_lacc'), ('gboost', 'struct nv_gacc')):
         src = f'src/{tag}/accumulator.cpp'
         common = dict(self_struct=st, types=[(rf'^nano::{tag}::accumulator_t$', st), (TENS, 'struct nv_tens')],
@@ -65,6 +65,12 @@ def acc_targets():
                       calls=[(r'^operator\+=\|.*\|.*tensor', '(*nv_t_add({&0}, {&1}))'), (r'^operator/=\|.*\|.*tensor', '(*nv_t_div({&0}, {1}))'),
                              (r'^operator=\|.*ArrayWrapper', 'nv_t_fill({0}, {1})')])
         flt = f'{tag}::accumulator_t::'
+        if tag == 'gboost':
+            gm = [(r'^array\|', '(*{self})'), (r'^sum\|', 'nv_t_sum({self})'), (r'^size\|', '{self}->n')] + common['members']
+            gc = common['calls'] + [(r'^operator=\|.*tensor_marray_storage_t, double, 1.*\|', '(*nv_t_copy_to_gx({&0}, {&1}))')]
+            gcm = dict(common, members=gm, calls=gc, types=common['types'] + [(r'ArrayWrapper<', 'struct nv_tens')])
+            out += [Target('gboost_acc_update', [Fn('gboost_acc_update', src, 'update', flt=flt + 'update', **gcm)], H),
+                    Target('gboost_acc_vgrad', [Fn('gboost_acc_vgrad', src, 'vgrad', flt=flt + 'vgrad', **gcm)], H)]
         out += [Target(f'{tag}_acc_clear', [Fn(f'{tag}_acc_clear', src, 'clear', flt=flt + 'clear', **common)], H),
                 Target(f'{tag}_acc_add', [Fn(f'{tag}_acc_add', src, 'operator+=', flt=flt + 'operator+=', **common)], H),
                 Target(f'{tag}_acc_div', [Fn(f'{tag}_acc_div', src, 'operator/=', flt=flt + 'operator/=', **common)], H)]
@@ -110,12 +116,251 @@ def iter_targets():
     return out
 
 
+def scale_view_hook(P, n):
+    """stats.scale(mode, view): the view argument is a by-value copy of a tensor MAP, which shares the storage of the object it
+    was copied from -- the scaling therefore acts on that object: pass its address (not the address of a temporary copy)"""
+    if n.get('kind') != 'CXXMemberCallExpr':
+        return None
+    me = n['inner'][0]
+    if me.get('kind') != 'MemberExpr' or me.get('name') != 'scale' or 'scalar_stats_t' not in qual_of(me['inner'][0]) or len(n['inner']) != 3:
+        return None
+    from cxx2c import unwrap
+    v = unwrap(n['inner'][2])
+    while v.get('kind') == 'CXXConstructExpr' and len(v.get('inner', [])) == 1:
+        v = unwrap(v['inner'][0])
+    if v.get('valueCategory') != 'lvalue':
+        return None
+    obj = me['inner'][0]
+    P.note('stats.scale(mode, map) -> nv_stats_scale(&stats, mode, &storage)')
+    return f'nv_stats_scale({P.addr(obj)}, {P.expr(n["inner"][1])}, {P.addr(v)})'
+
+
+def qual_of(node):
+    t = node.get('type', {})
+    return t.get('desugaredQualType', t.get('qualType', ''))
+
+
+def access_targets():
+    """targets(tnum, range) / flatten(tnum, range), the scaling wrappers and the chunk tasks of cache_targets / cache_flatten"""
+    H = 'specs/C09/access.h'
+    ITU = 'src/dataset/iterator.cpp'
+    types = [(r'^nano::(flatten|targets|base_dataset)_iterator_t$', 'struct nv_xiter'), (r'^nano::tensor_range_t$', 'struct nv_range'),
+             (r'^nano::dataset_t$', 'struct nv_dataset'), (r'^nano::scalar_stats_t$', 'struct nv_stats'), (r'^nano::scaling_type$', 'int32_t'),
+             (r'^nano::indices_t$|tensor_t<nano::tensor_vector_storage_t, long, 1', 'struct nv_samples'),
+             (r'^(nano::)?(indices_c?map_t|tensor_c?map_t<long, 1UL>)$|tensor_t<nano::tensor_(carray|marray)_storage_t, long, 1', 'struct nv_sslice'),
+             (r'buffers_t$|^std::vector<nano::tensor_t<nano::tensor_vector_storage_t, double, [24]>', 'struct nv_bufs'),
+             (r'__alloc_traits<.*tensor_vector_storage_t, double, [24]>.*::value_type$', 'struct nv_buf'),
+             (r'^nano::tensor[24]d_(c?map_)?t$|^(nano::)?tensor_c?map_t<double, [24]UL>$|tensor_t<nano::tensor_(carray|marray|vector)_storage_t, double, [24]', 'struct nv_data')]
+    common = dict(self_struct='struct nv_xiter', types=types, uf_float=False, hooks=[scale_view_hook])
+    members = [(r'^size\|nano::tensor_base_t<double, [24], true>', '{self}->rows'), (r'^size\|nano::tensor_base_t<long, 1, true>', '{self}->size'),
+               (r'^slice\|nano::tensor[24]d_t$|^slice\|nano::tensor_t<nano::tensor_vector_storage_t, double, [24]', 'nv_cache_slice({self}, {&0})'),
+               (r'^slice\|nano::indices_t|^slice\|nano::tensor_t<nano::tensor_vector_storage_t, long, 1', 'nv_samples_slice({self}, {&0})'),
+               (r'^dataset\|nano::base_dataset_iterator_t \*', '(*nv_ds({self}))'), (r'^samples\|nano::targets_iterator_t \*', '({self}->m_samples)'),
+               (r'^targets\|nano::dataset_t', 'nv_ds_targets({self}, {0}, {&1})'), (r'^flatten\|nano::dataset_t', 'nv_ds_flatten({self}, {0}, {&1})'),
+               (r'^targets\|nano::targets_iterator_t \*', 'targets_scaled({self}, {0})'), (r'^flatten\|nano::flatten_iterator_t \*', 'flatten_scaled({self}, {0})'),
+               (r'^scaling\|nano::targets_iterator_t \*', '{self}->m_scaling'),
+               (r'^begin\|nano::tensor_range_t', '{self}->m_begin'), (r'^end\|nano::tensor_range_t', '{self}->m_end'),
+               (r'^size\|nano::tensor_range_t', '({self}->m_end - {self}->m_begin)')]
+    calls = [(r'^operator\[\]\|', '(*nv_buf_at({&0}, {1}))'), (r'^make_range\|', 'make_range({0}, {1})'),
+             (r'^operator=\|.*tensor_marray_storage_t, double, [24]', 'nv_cache_store({0}, {1})'),
+             (r'^ctor\|nano::tensor_t<nano::tensor_carray_storage_t, double, [24]>\|void \(const tensor_t<nano::tensor_marray_storage_t, double, [24]UL> &\)', '{0}'),
+             (r'^ctor\|nano::tensor_t<nano::tensor_carray_storage_t, long, 1>\|void \(const tensor_t<nano::tensor_marray_storage_t, long, 1UL> &\)', '{0}'),
+             (r'^ctor\|nano::tensor_range_t\|void \((const )?nano::tensor_size_t, (const )?nano::tensor_size_t\)', 'nv_range_make({0}, {1})')]
+    wrap_members = members
+    nparams = lambda k: (lambda d: len(astload.param_types(d)) == k)
+    tsc = lambda: Fn('targets_scaled', ITU, 'targets', flt='targets_iterator_t::targets', select=nparams(1), members=wrap_members, calls=calls, **common)
+    fsc = lambda: Fn('flatten_scaled', ITU, 'flatten', flt='flatten_iterator_t::flatten', select=nparams(1), members=wrap_members, calls=calls, **common)
+    tat = Fn('targets_at', ITU, 'targets', flt='targets_iterator_t::targets', select=nparams(2), members=members, calls=calls, **common)
+    fat = Fn('flatten_at', ITU, 'flatten', flt='flatten_iterator_t::flatten', select=nparams(2), members=members, calls=calls, **common)
+    rng = lambda: Fn('range_ctor', ITU, 'tensor_range_t', flt='nano::tensor_range_t::tensor_range_t', kinds=('CXXConstructorDecl',),
+                     select=nparams(2), self_struct='struct nv_range', types=types, uf_float=False)
+    mkr = lambda: Fn('make_range', ITU, 'make_range', flt='nano::make_range', types=types, uf_float=False, calls=calls)
+    ctt = Fn('cache_targets_task', ITU, 'cache_targets', flt='targets_iterator_t::cache_targets', lambda_index=0, members=members, calls=calls, **common)
+    cft = Fn('cache_flatten_task', ITU, 'cache_flatten', flt='flatten_iterator_t::cache_flatten', lambda_index=0, members=members, calls=calls,
+             extra_params=['struct nv_samples* samples', 'struct nv_dataset* dataset'], **common)
+    return [Target('targets_scaled', [tsc()], H), Target('flatten_scaled', [fsc()], H),
+            Target('targets_at', [tat, tsc(), mkr(), rng()], H), Target('flatten_at', [fat, fsc(), mkr(), rng()], H),
+            Target('cache_targets_task', [ctt, tsc(), mkr(), rng()], H), Target('cache_flatten_task', [cft, fsc(), mkr(), rng()], H)]
+
+
+VG_TYPES = [(r'__normal_iterator<nano::(linear|gboost)::accumulator_t \*|^std::vector<nano::(linear|gboost)::accumulator_t>::iterator$', 'uint64_t'),
+            (r'Eigen::|CwiseBinaryOp<|CwiseUnaryOp<|ArrayWrapper<|ArrayBase<|DenseBase<|MatrixBase<', 'struct nv_expr'),
+            (r'^nano::linear::function_t$', 'struct nv_lfun'), (r'^nano::gboost::(bias|scale|grads)_function_t$', 'struct nv_gfun'),
+            (r'^nano::(linear|gboost)::accumulators_t$|^std::vector<nano::(linear|gboost)::accumulator_t', 'struct nv_vaccs'),
+            (r'^nano::(linear|gboost)::accumulator_t$|__alloc_traits<.*accumulator_t.*::value_type$', 'struct nv_vacc'),
+            (r'^nano::(flatten|targets|base_dataset)_iterator_t$', 'struct nv_miter'), (r'^nano::dataset_t$', 'struct nv_dsinfo'),
+            (r'^nano::cluster_t$', 'struct nv_cluster'), (r'^nano::loss_t$', 'struct nv_loss'), (r'^nano::tensor_range_t$', 'struct nv_range'),
+            (r'^nano::indices_t$|tensor_t<nano::tensor_vector_storage_t, long, 1', 'struct nv_samples'),
+            (r'^nano::(vector_c?map_t|vector_t|tensor\dd_(c?map_)?t)$|^(const )?(nano::)?tensor_c?map_t<double, \dUL>$|tensor_t<nano::tensor_(carray|marray|vector)_storage_t, double, \d', 'struct nv_tens')]
+VG_ITER = [(r'^operator!=\|bool \(const __normal_iterator', '({0} != {1})'), (r'^operator\+\+\|.*__normal_iterator', '(++{0})'),
+           (r'^operator\*\|.*__normal_iterator<nano::(linear|gboost)::accumulator_t', '(*nv_vacc_iter({0}))')]
+VG_MEMBERS = [(r'^begin\|(nano::(linear|gboost)::accumulators_t|std::vector<nano::(linear|gboost)::accumulator_t)', '((uint64_t)0)'),
+              (r'^end\|(nano::(linear|gboost)::accumulators_t|std::vector<nano::(linear|gboost)::accumulator_t)', '{self}->size'),
+              (r'^size\|(nano::(linear|gboost)::accumulators_t|std::vector<nano::(linear|gboost)::accumulator_t)', '{self}->size'),
+              (r'^clear\|nano::(linear|gboost)::accumulator_t', 'nv_vacc_clear'),
+              (r'^loop\|nano::(flatten|targets)_iterator_t', 'nv_iter_loop({self})'),
+              (r'^samples\|nano::targets_iterator_t', '({self}->m_samples)'), (r'^dataset\|nano::base_dataset_iterator_t', '(*nv_iter_dataset({self}))'),
+              (r'^samples\|nano::dataset_t', '{self}->n_samples'), (r'^samples\|nano::cluster_t', '{self}->n_samples'),
+              (r'^groups\|nano::cluster_t', '{self}->n_groups'), (r'^columns\|nano::dataset_t', '{self}->n_columns'),
+              (r'^size\|nano::tensor_base_t<long, 1, true>', '{self}->size'), (r'^size\|nano::tensor_base_t<double, \d, true>', '{self}->size')]
+VG_CALLS = VG_ITER + [(r'^sum_reduce\|', '(*nv_sum_reduce({&0}, {1}))'),
+                      (r'^operator\[\]\|std::vector<nano::(linear|gboost)::accumulator_t>::reference', '(*nv_vacc_at({&0}, {1}))')]
+
+
+def vgrad_targets():
+    H = 'specs/C09/vgrad.h'
+    LTU = 'src/linear/function.cpp'
+    lmembers = VG_MEMBERS + [(r'^bias\|nano::linear::function_t \*', 'nv_part({&0}, NV_ROLE_BIAS, nv_nondet_int64_t())'),
+                             (r'^weights\|nano::linear::function_t \*', 'nv_part({&0}, NV_ROLE_WEIGHTS, nv_nondet_int64_t())'),
+                             (r'^array\|', 'nv_e_of({self})'), (r'^(sign|abs|square)\|', 'nv_e_unary({*self})'), (r'^mean\|', 'nv_e_mean({*self})')]
+    lcalls = VG_CALLS + [(r'^operator=\|nano::tensor_t<nano::tensor_marray_storage_t, double, [12]> &\(const tensor_t<nano::tensor_vector_storage_t, double, [12]UL> &\)', 'nv_part_assign({&0}, {&1})'),
+                         (r'^operator\*\|', 'nv_e_scale({0}, {1})'), (r'^operator/\|', 'nv_e_div({0}, {1})'), (r'^operator\+=\|.*ArrayWrapper', 'nv_arr_add({0}, {1})'),
+                         (r'^sqrt\|', '__CPROVER_uninterpreted_fsqrt({0})')]
+    ldo = Fn('linear_do_vgrad', LTU, 'do_vgrad', flt='linear::function_t::do_vgrad', self_struct='struct nv_lfun', types=VG_TYPES,
+             members=lmembers, calls=lcalls)
+    GTU = 'src/gboost/function.cpp'
+    gtypes = [(r'^nano::tensor4d_dims_t$|^std::array<long, 4(UL)?>$|tensor_dims_t<4|tensor_dims_t<3UL \+ 1>', 'struct nv_dims'), (r'^nano::tensor3d_dims_t$|^std::array<long, 3>$|tensor_dims_t<3', 'uint64_t')] + VG_TYPES
+    gmembers = VG_MEMBERS + [(r'^vgrad\|nano::gboost::accumulator_t', 'nv_acc_vgrad({self}, {0})'), (r'^target_dims\|nano::dataset_t', '{self}->tdims'),
+                             (r'^data\|', '({self})'),
+                             (r'^gradients\|nano::gboost::grads_function_t \*', '(*grads_gradients({self}, {&0}))'),
+                             (r'^vector\|', 'nv_e_vec({self})'), (r'^mean\|', 'nv_e_mean_of({*self})')]
+    gcalls = VG_CALLS + [(r'^clear\|void \(nano::gboost::accumulators_t &\)', 'nv_clear_all({&0})'), (r'^size\|', 'nv_dims_size({0})'),
+                         (r'^cat_dims\|', 'nv_cat_dims({0}, {1})'), (r'^map_tensor\|', 'nv_map_tensor({0}, {1})'),
+                         (r'^operator/\|', 'nv_e_divd({0}, {1})'), (r'^operator=\|.*tensor_marray_storage_t, double, 1', 'nv_vec_assign({&0}, {1})')]
+    gcommon = dict(self_struct='struct nv_gfun', types=gtypes, members=gmembers, calls=gcalls)
+    bdo = Fn('bias_do_vgrad', GTU, 'do_vgrad', flt='bias_function_t::do_vgrad', **gcommon)
+    sdo = Fn('scale_do_vgrad', GTU, 'do_vgrad', flt='scale_function_t::do_vgrad', **gcommon)
+    gdo = Fn('grads_do_vgrad', GTU, 'do_vgrad', flt='grads_function_t::do_vgrad', **gcommon)
+    ggr = lambda: Fn('grads_gradients', GTU, 'gradients', flt='grads_function_t::gradients', **gcommon)
+    return [Target('linear_do_vgrad', [ldo], H), Target('bias_do_vgrad', [bdo], H), Target('scale_do_vgrad', [sdo], H),
+            Target('grads_do_vgrad', [gdo, ggr()], H, replace=['grads_gradients']), Target('grads_gradients', [ggr()], H)]
+
+
+TK_TYPES = [(r'^nano::linear::function_t$|^nano::gboost::(bias|scale|grads)_function_t$', 'struct nv_tfun'),
+            (r'^nano::(linear|gboost)::accumulators_t$|^std::vector<nano::(linear|gboost)::accumulator_t', 'struct nv_taccs'),
+            (r'^nano::(linear|gboost)::accumulator_t$|__alloc_traits<.*accumulator_t.*::value_type$', 'struct nv_tacc'),
+            (r'^nano::loss_t$', 'struct nv_loss'), (r'^nano::tensor_range_t$', 'struct nv_range'), (r'^nano::cluster_t$', 'struct nv_cluster'),
+            (r'^nano::indices_t$|tensor_t<nano::tensor_vector_storage_t, long, 1', 'struct nv_samples'),
+            (r'^nano::(flatten|targets)_iterator_t$', 'struct nv_titer'),
+            (r'Eigen::|CwiseBinaryOp<|CwiseUnaryOp<|ArrayWrapper<|ArrayBase<|DenseBase<|MatrixBase<|^(const )?Product<|VectorwiseOp<|Transpose', 'struct nv_tt'),
+            (r'^nano::(vector_c?map_t|vector_t|tensor\dd_(c?map_)?t)$|^(const )?(nano::)?tensor_c?map_t<double, \dUL>$|tensor_t<nano::tensor_(carray|marray|vector)_storage_t, double, \d', 'struct nv_tt')]
+TK_MEMBERS = [(r'^value\|nano::loss_t', 'nv_loss_value({self}, {0}, {1}, {&2})'), (r'^vgrad\|nano::loss_t', 'nv_loss_vgrad({self}, {0}, {1}, {&2})'),
+              (r'^sum\|nano::tensor_t<', 'nv_sum({self})'), (r'^sum\|.*VectorwiseOp', 'nv_colsum({*self})'), (r'^colwise\|', 'nv_view_v({*self})'),
+              (r'^matrix\|', 'nv_view({self})'), (r'^vector\|', 'nv_view({self})'), (r'^transpose\|', 'nv_transpose({self})'),
+              (r'^reshape\|', 'nv_reshape({self}, {0})'), (r'^size\|nano::tensor_range_t', '({self}->m_end - {self}->m_begin)'),
+              (r'^begin\|nano::tensor_range_t', '{self}->m_begin'), (r'^end\|nano::tensor_range_t', '{self}->m_end'),
+              (r'^size\|nano::tensor_base_t<double, \d, true>', '{self}->rows')]
+TK_CALLS = [(r'^operator\[\]\|std::vector<nano::(linear|gboost)::accumulator_t>::reference', '(*nv_tacc_at({&0}, {1}))'),
+            (r'^predict\|', 'nv_predict({&0}, {&1}, {&2}, {&3})'), (r'^make_range\|', 'nv_mk_range({0}, {1})'),
+            (r'^ctor\|nano::tensor[1-4]d_cmap_t\||^ctor\|nano::tensor_t<nano::tensor_carray_storage_t, double, \d>\|', '{0}'),
+            (r'^operator\+=\|', 'nv_add_to({0}, {1})'), (r'^operator\*\|Product<', 'nv_matmul({0}, {&1})')]
+
+
+def _root_lvalue(n):
+    """the lvalue a by-value copy of a tensor MAP shares its storage with (looking through copy constructions)"""
+    from cxx2c import unwrap
+    v = unwrap(n)
+    while v.get('kind') in ('CXXConstructExpr', 'MaterializeTemporaryExpr', 'CXXBindTemporaryExpr') and len(v.get('inner', [])) == 1:
+        v = unwrap(v['inner'][0])
+    return v
+
+
+def loss_hook(value_stub, vgrad_stub):
+    """loss.value(targets, outputs, values) / loss.vgrad(..): the third argument is a map passed by value that shares the storage of
+    the object it was copied from: the kernel writes THERE -- pass that object's address (a prvalue slice: a temporary)"""
+    def h(P, n):
+        if n.get('kind') != 'CXXMemberCallExpr':
+            return None
+        me = n['inner'][0]
+        if me.get('kind') != 'MemberExpr' or me.get('name') not in ('value', 'vgrad') or 'loss_t' not in qual_of(me['inner'][0]) or len(n['inner']) != 4:
+            return None
+        dst = _root_lvalue(n['inner'][3])
+        stub = value_stub if me['name'] == 'value' else vgrad_stub
+        P.note(f'loss.{me["name"]}(targets, outputs, map) -> {stub}(&loss, targets, outputs, &storage)')
+        return f'{stub}({P.addr(me["inner"][0])}, {P.expr(n["inner"][1])}, {P.expr(n["inner"][2])}, {P.addr(dst)})'
+    return h
+
+
+def rows_assign_hook(P, n):
+    """<local>.reshape(R, -1).matrix().rowwise() = rhs  ->  nv_set_all_rows(&local, R, rhs);   <local>.vector(K) = rhs  ->  nv_set_row(&local, K, rhs)
+    (an assignment through a chain of Eigen views writes into the storage of the local map the chain starts from)"""
+    from cxx2c import unwrap
+    if n.get('kind') != 'CXXOperatorCallExpr' or unwrap(n['inner'][0]).get('referencedDecl', {}).get('name') != 'operator=':
+        return None
+    lhs = _root_lvalue(n['inner'][1])
+    chain = []
+    while lhs.get('kind') == 'CXXMemberCallExpr':
+        me = lhs['inner'][0]
+        chain.append((me.get('name'), lhs['inner'][1:]))
+        lhs = _root_lvalue(me['inner'][0])
+    if lhs.get('kind') != 'DeclRefExpr' or not chain:
+        return None
+    names = [c[0] for c in chain]
+    if names == ['rowwise', 'matrix', 'reshape']:
+        P.note('local.reshape(R, -1).matrix().rowwise() = rhs -> nv_set_all_rows')
+        return f'nv_set_all_rows({P.addr(lhs)}, {P.expr(chain[2][1][0])}, {P.expr(n["inner"][2])})'
+    if names == ['vector'] and len(chain[0][1]) == 1:
+        P.note('local.vector(K) = rhs -> nv_set_row')
+        return f'nv_set_row({P.addr(lhs)}, {P.expr(chain[0][1][0])}, {P.expr(n["inner"][2])})'
+    return None
+
+
+def row_hook(P, n):
+    """tensor.vector(k) with one argument: row k of the tensor (the 0-argument form is the whole tensor as a vector)"""
+    if n.get('kind') != 'CXXMemberCallExpr':
+        return None
+    me = n['inner'][0]
+    if me.get('kind') != 'MemberExpr' or me.get('name') != 'vector' or len(n['inner']) != 2:
+        return None
+    obj = me['inner'][0]
+    return f'nv_row({P.expr(obj) if me.get("isArrow") else P.addr(obj)}, {P.expr(n["inner"][1])})'
+
+
+def cell_add_hook(P, n):
+    """acc.m_gb1(group) += v  ->  nv_gb_cell_add(acc.m_gb1, group, v)   (one element of a partial-sum vector)"""
+    from cxx2c import unwrap
+    if n.get('kind') != 'CompoundAssignOperator' or n.get('opcode') != '+=':
+        return None
+    lhs = unwrap(n['inner'][0])
+    if lhs.get('kind') != 'CXXOperatorCallExpr' or unwrap(lhs['inner'][0]).get('referencedDecl', {}).get('name') != 'operator()' or len(lhs['inner']) != 3:
+        return None
+    return f'nv_gb_cell_add({P.expr(lhs["inner"][1])}, {P.expr(lhs["inner"][2])}, {P.expr(n["inner"][1])})'
+
+
+def task_targets():
+    H = 'specs/C09/task.h'
+    common = dict(self_struct='struct nv_tfun', types=TK_TYPES, members=TK_MEMBERS, calls=TK_CALLS)
+    lt = Fn('linear_task', 'src/linear/function.cpp', 'do_vgrad', flt='linear::function_t::do_vgrad', lambda_index=0,
+            extra_params=['struct nv_tt W', 'struct nv_tt b', 'struct nv_tt gx'], **common)
+    GTU = 'src/gboost/function.cpp'
+    gmembers = [(r'^slice\|', 'nv_slot({self}, {&0})'), (r'^update\|nano::gboost::accumulator_t', 'nv_acc_update({self}, {0})'),
+                (r'^transpose\|', 'nv_transpose_any({self})')] + TK_MEMBERS
+    gcalls = [(r'^ctor\|(nano::)?tensor_c?map_t<double, \dUL>\||^ctor\|nano::tensor_t<nano::tensor_(carray|marray)_storage_t, double, \d>\|', '{0}')] + TK_CALLS
+    gcommon = dict(self_struct='struct nv_tfun', types=TK_TYPES, members=gmembers, calls=gcalls, hooks=[loss_hook('nv_loss_value_g', 'nv_loss_vgrad_g'), rows_assign_hook])
+    bt = Fn('bias_task', GTU, 'do_vgrad', flt='bias_function_t::do_vgrad', lambda_index=0,
+            extra_params=['struct nv_tt x', 'struct nv_tt gx', 'int64_t tsize'], **gcommon)
+    gt = Fn('grads_task', GTU, 'gradients', flt='grads_function_t::gradients', lambda_index=0, extra_params=['const struct nv_tt* outputs'], **gcommon)
+    scalls = [(r'^operator\(\)\|.*\|nano::indices_t|^operator\(\)\|.*tensor_vector_storage_t, long, 1', 'nv_sample_at({&0}, {1})'),
+              (r'^operator\(\)\|.*\|nano::vector_cmap_t|^operator\(\)\|.*tensor_carray_storage_t, double, 1', 'nv_param_at({&0}, {1})'),
+              (r'^operator\*\|(const )?CwiseBinaryOp<internal::scalar_product_op', 'nv_row_scale({0}, {1})'), (r'^operator\+\|', 'nv_row_sum({0}, {1})')] + gcalls
+    smembers = [(r'^group\|nano::cluster_t', 'nv_group_of({0})'), (r'^dot\|', 'nv_dot({*self}, {0})')] + gmembers
+    st = Fn('scale_task', GTU, 'do_vgrad', flt='scale_function_t::do_vgrad', lambda_index=0, self_struct='struct nv_tfun', types=TK_TYPES,
+            members=smembers, calls=scalls, hooks=[loss_hook('nv_loss_value_g', 'nv_loss_vgrad_g'), rows_assign_hook, row_hook, cell_add_hook],
+            extra_params=['struct nv_tt x', 'struct nv_tt gx', 'const struct nv_samples* samples'])
+    return [Target('linear_task', [lt], H), Target('bias_task', [bt], H), Target('grads_task', [gt], H), Target('scale_task', [st], H)]
+
+
 def build(tier):
-    targets = reduce_targets() + acc_targets() + iter_targets()
+    targets = reduce_targets() + acc_targets() + iter_targets() + access_targets() + vgrad_targets() + task_targets()
     import reg_smt
     bounded, fns = [], []
     for n in (1, 2, 3):
-        v, info = reg_smt.vcs_for(n)
+        try:
+            v, info = reg_smt.vcs_for(n)
+        except astload.ExtractionError as e:
+            # the walk over do_vgrad met something outside its vocabulary: this stand-in is undecided, the other targets still decide
+            v = [VC(f'linear_do_vgrad_reg[n={n}]/not extracted: {str(e)[:160]}', '(check-sat)', solvers=['none'], about='regularisation terms (bounded): extraction failed')]
+            info = {'c_name': f'linear_do_vgrad_reg[n={n}]', 'cxx': 'linear::function_t::do_vgrad (regularisation part)', 'file': reg_smt.FILE, 'undecided': str(e)[:300]}
         for x in v:
             x.bound = f'|W| = {n}'
         bounded += v
@@ -128,12 +373,18 @@ def build(tier):
             'linear::accumulator_t / gboost::accumulator_t clear, operator+=, operator/=: every partial-sum field (m_vm1, m_gb1 and m_gW1 for linear) is zeroed / added from the SAME field of `other` / divided by (double)samples, exactly once; the buffers m_outputs/m_vgrads/m_values are untouched (frame); *this is returned',
             'gboost clear(accumulators): every per-thread accumulator is cleared exactly once',
             'flatten_iterator_t::loop (both callbacks), targets_iterator_t::loop: map is called once with (samples().size(), batch()); base_dataset_iterator_t::map forwards (elements, chunksize) in this order to thread_pool().map; each task calls the callback exactly once with range [begin, end), the same tnum and the inputs / targets of exactly that (tnum, range); make_range / tensor_range_t(begin, end) store (begin, end).  With C17 (pool_t::map tiles [0, elements), tnum < pool size): every sample reaches the callback in exactly one range',
+            'linear::function_t::do_vgrad, gboost::bias/scale_function_t::do_vgrad (protocol up to the reduction): every per-thread accumulator is cleared before the samples are visited; exactly one loop over the function\'s own iterator; exactly one sum_reduce over the function\'s accumulators, after the loop, whose normaliser is the number of samples of the iterator that was looped over; value and gradient handed back are read from the reduced accumulator (linear: + the regularisation terms computed from the weights part of x, gradient parts written into gx once each)',
+            'gboost::grads_function_t::do_vgrad / gradients: one loop over the iterator; gradient = m_vgrads / (double)#iterator samples written into gx iff requested; value = mean of m_values',
+            'chunk tasks (the lambdas handed to loop): the task touches only m_accumulators[tnum]; predictions are computed from the chunk\'s inputs and the current parameters, loss values / gradients from the chunk\'s targets and these predictions, written to the chunk\'s own slots; the partial sums receive exactly once the sum of the chunk\'s loss values and, iff a gradient is requested, the chunk\'s gradient contributions (linear: column sums and gradients^T * inputs over all rows of the chunk; scale: per sample, strong + (cluster < 0 ? 0 : x[cluster]) * weak of the sample at that position, gradient <gradient row, weak row of the same sample> added to m_gb1[cluster of that sample], unassigned samples skipped; grads: values and gradients of the chunk go to rows [begin, end) of m_values / m_vgrads)',
+            'gboost::accumulator_t::update / vgrad: m_vm1 += sum of the given values; vgrad returns m_vm1 and copies m_gb1 into gx iff gx is not empty',
+            'access paths targets(tnum, range) / flatten(tnum, range): cached and on-the-fly branch return rows gathered for exactly the sample positions of the range that went exactly once through the scaling function with this iterator\'s statistics and mode; on-the-fly rows live in the per-thread buffer tnum; the chunk tasks of cache_targets / cache_flatten store such rows into rows [begin, end) of the cache; the wrappers targets(map) / flatten(map) scale with (own statistics, m_scaling)',
             'BOUNDED (|W| = 1, 2, 3; entries, l1, l2, loss symbolic reals): linear::function_t::do_vgrad returns loss + l1*mean|W| + (l2/2)*mean(W^2) and, when a gradient is requested, writes gW1 + l1*sign(W)/|W| + l2*W/|W| into the weights part of gx'],
         'not_decided': [
             'the loss values and their gradients (mean_i loss(t_i, W x_i + b), gboost bias/scale/grads objectives): numeric, Eigen kernels',
             'independence of the result from thread count / batch size beyond the combinatorial skeleton: floating-point re-association (1e-9 clause), and ANY effect of concurrent execution (races on per-thread buffers, accumulator index tnum used by two tasks at once)',
-            'the bodies of the per-range lambdas of linear::function_t::do_vgrad and gboost::*_function_t (Eigen expressions): accumulator index == tnum, accumulation of values and gradients; the order clear -> loop -> reduce inside do_vgrad is visible in the extracted text but only the regularisation part is under contract',
-            'cached vs uncached inputs/targets (flatten(tnum, range) / targets(tnum, range) bodies), feature scaling, missing values',
+            'the numeric kernels themselves (linear::predict, loss_t::value / vgrad, Eigen products and reductions, scalar_stats_t::scale formulas incl. missing -> 0: C14)',
+            'cache_targets / cache_flatten outer bodies (they contain try/catch, which the printer refuses): that the cache is resized to one row per sample and that the chunk task is mapped over all samples; the cache invariant (built under the CURRENT scaling mode) is a precondition: targets_iterator_t::scaling(mode) does not invalidate an existing cache (the library sets the mode before caching: src/linear.cpp:35-37)',
+            'constructors of the objectives (m_values / m_vgrads / m_outputs have one row per iterator sample; m_accumulators has concurrency() entries)',
             'regularisation identities for |W| > 3 (the proof is per array size; 1..3 are checked), IEEE rounding (double treated as real)',
             'select_iterator_t::loop (feature-wise iteration) and cache_flatten / cache_targets'],
         'assumptions': [
@@ -143,6 +394,8 @@ def build(tier):
             'tensor operations zero() / array() = 0 / += / /= act coefficient-wise on the whole tensor (Eigen / tensor_t assumed contract); Eigen abs/square/sign/mean/scalar*array/array/scalar interpreted by their definitions on real entries; std::sqrt(v) is a non-negative s with s*s == v; double treated as Real in the regularisation VCs',
             'std::vector::operator[] / range-for / std::min_element(first, last, comp): returns an iterator to an element such that no element compares less (stated at positions 0 and g)',
             'scalar double + and / are uninterpreted in the accumulator contracts (congruence only): the postconditions hold for every interpretation, IEEE included',
+            'provenance models: a tensor map passed / copied by value shares the storage it was created from (hooks scale_view_hook, loss_hook, rows_assign_hook); loss_t::value / vgrad write one row per sample of their arguments; linear::predict computes outputs row-wise from inputs; dataset_t::targets / flatten gather the raw rows of the given samples into the given buffer; scalar_stats_t::scale scales in place (and maps missing to 0)',
+            'tnum < number of per-thread buffers / accumulators (C17: tnum < pool size == concurrency(), the size these vectors are constructed with)',
             'sum_reduce inside do_vgrad is represented by a symbolic reduced accumulator in the regularisation VCs (its protocol is the subject of the sum_reduce targets)'],
         'trusted': [],
     }
@@ -154,6 +407,22 @@ def replay(rp):
     import re
     import replaylib
     out = {'reproduced': False, 'runs': []}
+    if re.match(r'(linear|bias|scale|grads)_(do_vgrad|task)$|grads_gradients$|(targets|flatten)_(at|scaled)$|cache_(targets|flatten)_task$', rp['target']):
+        # objective protocol / access paths: the REAL objectives of the working tree (library rebuilt incrementally) over a strict
+        # subset of a 30-sample dataset: MEAN (objective == mean of the single-sample objectives) and CACHE (cached == on the fly
+        # for every scaling mode); the verifier's counterexample is symbolic (iterator size != dataset / cluster size)
+        exe = replaylib.build_with_library('replay/C09_objective_replay.cpp', 'C09_objective_replay')
+        for args in ([5, 23, 3, 4], [0, 17, 1, 100], [10, 30, 2, 7]):
+            try:
+                rc, so, se = replaylib.run_driver(exe, args, timeout=300)
+            except Exception as e:
+                out['runs'].append({'args': args, 'error': repr(e)})
+                continue
+            bad = [ln for ln in so.splitlines() if '"ok": false' in ln]
+            out['runs'].append({'first_last_threads_batch': args, 'exit': rc, 'violated': bad[:6]})
+            if rc == 1:
+                out['reproduced'] = True
+        return out
     if not re.match(r'(sum_reduce|min_reduce)', rp['target']):
         out['note'] = 'no native driver for this target: the replay file carries the verifier output only'
         return out
